@@ -87,6 +87,10 @@ pub fn foldf(f: u8, acc: &mut It, x: It) {
 pub fn fold_commutative(f: u8) -> bool {
     f % N_FOLD != 1
 }
+/// As a *reduce* (the first item is the accumulator) counting also depends on which item is first.
+pub fn reduce_commutative(f: u8) -> bool {
+    matches!(f % N_FOLD, 0 | 2)
+}
 pub fn fold_init(f: u8) -> It {
     match f % N_FOLD {
         0 => (0, 0),
@@ -108,6 +112,9 @@ pub fn kfoldf(f: u8, acc: &mut i64, v: i64) {
 }
 pub fn kfold_commutative(f: u8) -> bool {
     f % N_KFOLD != 1
+}
+pub fn kreduce_commutative(f: u8) -> bool {
+    matches!(f % N_KFOLD, 0 | 2)
 }
 pub fn kfold_init(f: u8) -> i64 {
     match f % N_KFOLD {
